@@ -27,11 +27,13 @@ inductive Tok where
   | mu (m : Nat)
   | inOnce (o : Nat)
   | afterOnce (o : Nat)
+  | afterLatch (a : Nat)   -- "I observed (atomically) that publication flag `a` has its final value"
   deriving DecidableEq, Repr
 
-/-- kind of access at a site -/
+/-- kind of access at a site (`latchSet`: an atomic store to a publication flag that may store its
+final value) -/
 inductive Kind where
-  | rd | wr | atomic | unknown
+  | rd | wr | atomic | latchSet | unknown
   deriving DecidableEq, Repr
 
 /-- protection class of a location (from the reviewed table `tools/lockfacts/classes.json`) -/
@@ -41,6 +43,8 @@ inductive Class where
   | atomic              -- only accessed through atomic / internally synchronised operations
   | published           -- written only before the object is shared (constructor): every access here is a read
   | confined            -- belongs to a value handed to one goroutine (assumption on clients, see `Conforms`)
+  | latched (m a : Nat) -- written under mutex `m` and only while flag `a` is not final; read under `m` or after observing `a` final
+  | latch (m : Nat)     -- a publication flag (an atomic): stores happen under mutex `m`, everything else is an atomic load/CAS
   | unknown             -- not classified: never acceptable
   deriving DecidableEq, Repr
 
@@ -94,15 +98,24 @@ def Facts.assumesOf (F : Facts) (n : Nat) : List Tok :=
 def guardOK (c : Class) (k : Kind) (held : List Tok) : Bool :=
   match c, k with
   | _, .unknown => false
+  | .mutex _, .latchSet => false
   | .mutex m, _ => held.contains (.mu m)
   | .once o, .wr => held.contains (.inOnce o)
   | .once o, .rd => held.contains (.inOnce o) || held.contains (.afterOnce o)
   | .once _, .atomic => false
+  | .once _, .latchSet => false
   | .atomic, .atomic => true
   | .atomic, _ => false
   | .published, .rd => true
   | .published, _ => false
+  | .confined, .latchSet => false
   | .confined, _ => true
+  | .latched m _, .wr => held.contains (.mu m)
+  | .latched m a, .rd => held.contains (.mu m) || held.contains (.afterLatch a)
+  | .latched _ _, _ => false
+  | .latch m, .latchSet => held.contains (.mu m)
+  | .latch _, .atomic => true
+  | .latch _, _ => false
   | .unknown, _ => false
 
 def subset (a b : List Tok) : Bool := a.all (fun t => b.contains t)
